@@ -272,7 +272,32 @@ pub fn run_batch<C: Case>(cfg: &BatchCfg, known: &[Known<C>]) -> BatchResult<C> 
                         }
                     }
 
-                    let mut violations = scn.check(cfg.prop, &r, &out);
+                    // Oracles call a few real conversion functions directly; a
+                    // panic raised inside the code under test is a finding, a
+                    // panic of the oracle itself is a harness error.
+                    let _ = crate::common::take_last_panic();
+                    let checked = std::panic::catch_unwind(std::panic::AssertUnwindSafe(|| {
+                        scn.check(cfg.prop, &r, &out)
+                    }));
+                    let mut violations = match checked {
+                        Ok(v) => v,
+                        Err(_) => {
+                            let msg = crate::common::take_last_panic().unwrap_or_default();
+                            if msg.contains("/repo/") {
+                                vec![Violation::new(
+                                    "panic_in_code_under_test",
+                                    format!("a function of the code under test called by the oracle panicked: {msg}"),
+                                )]
+                            } else {
+                                *harness_err.lock().unwrap() = Some(format!(
+                                    "oracle panicked on run {i} (seed {run_seed:#x}): {msg}; scenario {}",
+                                    scn.to_json()
+                                ));
+                                stop.store(true, Ordering::Relaxed);
+                                break;
+                            }
+                        }
+                    };
 
                     // Known findings are reported, counted and otherwise
                     // ignored; anything else is a violation.
